@@ -116,7 +116,10 @@ def run_once(cfg: dict, chooser, line_points=False, use_cache=True):
                         observe=drv.observe,
                         line_points=line_points,
                         use_cache=use_cache,
-                        only_funcs={THIS: {"drive_main", "source", "f"}})
+                        only_funcs={THIS: {"drive_main", "source", "f"}},
+                        workers_first=bool(cfg.get("workers_first")),
+                        every_switch_costs=bool(cfg.get("workers_first")),
+                        timeouts_first=cfg.get("slow", 0))
     res, exc = s.run_main(drv.drive_main)
     out = {
         "got": sorted(drv.got),
@@ -202,7 +205,10 @@ def explore_config(cfg: dict) -> dict:
     """Explore all interleavings of one configuration.
 
     cfg keys: variant(full|early|reuse|fail|inf), T, n, k, p, n2,
-              bound (None = complete), cache(bool), lines(bool), max_exec.
+              bound (None = complete), cache(bool), lines(bool), max_exec,
+              workers_first (base schedule: eager workers), slow=K (base
+              schedule: every wait with a time-out expires up to K times in
+              a row before its partner runs).
     """
     t0 = time.time()
     bound = cfg.get("bound")
